@@ -16,7 +16,7 @@ use crate::refmodel::*;
 use crate::scratch;
 
 pub fn meta(id: &'static str) -> Meta {
-    let common = "references of 1..3 contigs (the FASTA written in one of four layouts per case: one line per contig; lines of 4; lines of 3 with CRLF; one line with CRLF and no final line end) given to the real RefSka::new + map + write_aln/write_vcf (each run in a forked child), samples presented as forged dictionaries so that ANY presence pattern and middle byte can occur. Level A (writer state machine), k=5 and 7: contig lengths from {1, h, k-1, k, k+1, k+2, 2k-1, 2k, 2k+1, 3k} (all single contigs, all ordered pairs, a declared set of triples incl. contigs without k-mers before/between/after others); for each reference EVERY subset of its k-mer centres as 'matched' (references with more than 12 centres: every subset of every window of 10 consecutive centres, rest all-matched or all-unmatched), middle byte cycling through reference base / other base / ambiguity code / N, eight samples per run (one pattern per sample column), both strand modes, mask flags. Level B (reference handling), k=5: every reference over {A,C,G,T,N} up to length 7 (thorough 8) mapped against itself, case variants, every single substitution and every deletion of 1..k letters of a repeat-free reference, reverse-complemented and swapped contigs, planted repeats (same/opposite strand, across contigs, overlapping, behind a contig shorter than k) under all four mask-flag combinations; an IUPAC code (either case) at every position of a reference contig, against samples that carry each of the four bases there with and without an adjacent SNP, a sample that holds exactly the code's bases (its stored code equals the reference letter) and one that holds all four, together and alone.";
+    let common = "references of 1..3 contigs (the FASTA written in one of four layouts per case: one line per contig; lines of 4; lines of 3 with CRLF; one line with CRLF and no final line end) given to the real RefSka::new + map + write_aln/write_vcf (each run in a forked child), samples presented as forged dictionaries so that ANY presence pattern and middle byte can occur. Level A (writer state machine), k=5 and 7: contig lengths from {1, h, k-1, k, k+1, k+2, 2k-1, 2k, 2k+1, 3k} (all single contigs, all ordered pairs, a declared set of triples incl. contigs without k-mers before/between/after others); for each reference EVERY subset of its k-mer centres as 'matched' (references with more than 12 centres: every subset of every window of 10 consecutive centres, rest all-matched or all-unmatched), middle byte cycling through reference base / other base / ambiguity code / N, eight samples per run (one pattern per sample column), both strand modes, mask flags. Level B (reference handling), k=5: every reference over {A,C,G,T,N} up to length 7 (thorough 8) mapped against itself, case variants, every single substitution and every deletion of 1..k letters of a repeat-free reference, reverse-complemented and swapped contigs, contigs without any letter (first, in the middle, two in a row; not last: a header without a sequence line at the end of the file is not a FASTA record), planted repeats (same/opposite strand, across contigs, overlapping, behind a contig shorter than k) under all four mask-flag combinations; an IUPAC code (either case) at every position of a reference contig, against samples that carry each of the four bases there with and without an adjacent SNP, a sample that holds exactly the code's bases (its stored code equals the reference letter) and one that holds all four, together and alone.";
     if id == "C04" {
         Meta {
             id: "C04",
@@ -498,6 +498,9 @@ pub fn run(ctx: &Ctx, rep: &mut Report, id: &str) {
                 ("one contig", vec![g1.clone()]),
                 ("two contigs", vec![g1.clone(), g2.clone()]),
                 ("short contig in the middle", vec![g1[..k + 2].to_vec(), short.clone(), g2.clone()]),
+                ("empty contig in the middle", vec![g1[..k + 2].to_vec(), vec![], g2.clone()]),
+                ("empty contig first", vec![vec![], g1.clone()]),
+                ("two empty contigs in a row", vec![g2.clone(), vec![], vec![], g1[..k + 3].to_vec()]),
                 ("repeat behind a short contig", vec![g2.clone(), short.clone(), [&g1[..k + 3], &g1[..k + 1]].concat()]),
                 ("repeat on the opposite strand in another contig", vec![g1.clone(), short.clone(), [g2.as_slice(), &rc_str(&g1[2..k + 4])].concat()]),
                 ("overlapping repeat", vec![[&g1[..k + 2], &g1[1..k + 3], &g1[k..]].concat()]),
